@@ -1218,3 +1218,195 @@ def e3(prog):
     if bad:
         findings.append({"key": key, "where": "libzwerg/" + nxt["l"], "msg": bad, "detail": None})
     return inst, findings
+
+
+# --------------------------------------------------------------------------
+# E9: the op engine as a whole against the reference semantics
+
+def _e9_terms(tier):
+    P, D, F, T, N = ("push", "a"), ("drop",), ("fail",), ("twice", "t"), ("NOP",)
+    leaves = [P, D, F, T, N, ("top?", "p")]
+    core = [P, D, F, T]
+    S = lambda x: ("SCOPE", x)
+    unary = [lambda x: ("CAPTURE", S(x)), lambda x: ("SUBX", 1, S(x)), lambda x: ("SUBX", 0, S(x)), lambda x: ("?", x), lambda x: ("!", x)]
+    binary = [lambda x, y: ("CAT", x, y), lambda x, y: ("ALT", x, y), lambda x, y: ("OR", x, y)]
+    a1 = list(leaves)
+    a1 += [u(x) for u in unary for x in leaves]
+    a1 += [b(x, y) for b in binary for x in core + [N] for y in core + [("top?", "p")]]
+    a1 += [("IFELSE", S(c), S(t), S(e)) for c in (P, F, ("top?", "p"), T) for t in (("push", "T"), F, T) for e in (("push", "E"), D)]
+    # closures: bodies that converge
+    bodies = [("inc", 2), ("ALT", ("inc", 2), ("fail",)), ("ALT", ("inc", 1), ("inc", 2)), ("CAT", ("drop",), ("push", "2")), ("fail",), ("NOP",),
+              ("OR", ("inc", 1), ("CAT", ("drop",), ("push", "0"))), ("CAT", ("inc", 3), ("inc", 3))]
+    clos = []
+    for b in bodies:
+        for k in ("CLOSE_STAR", "CLOSE_PLUS"):
+            clos.append(("CAT", ("push", "0"), (k, S(b))))
+            clos.append(("CAT", ("ALT", ("push", "0"), ("push", "1")), (k, S(b))))
+            clos.append(("CAPTURE", S(("CAT", ("push", "0"), (k, S(b))))))
+    # lexical names
+    bind = [S(("CAT", ("push", "v"), ("BIND", "A"), ("READ", "A"), ("READ", "A"))),
+            S(("CAT", T, ("BIND", "A"), ("ALT", ("READ", "A"), ("CAT", ("push", "w"), ("READ", "A"))))),
+            S(("CAT", ("push", "v"), ("BIND", "A"), S(("CAT", ("push", "u"), ("BIND", "A"), ("READ", "A"))), ("READ", "A"))),
+            S(("CAT", ("BIND", "V"), ("CAPTURE", S(("ALT", ("READ", "V"), ("READ", "V")))))),
+            S(("CAT", ("BIND", "V"), ("?", ("CAT", ("READ", "V"), ("top?", "p"))), ("READ", "V"))),
+            S(("CAT", ("BIND", "V"), ("OR", ("CAT", ("READ", "V"), ("top?", "q")), ("push", "other")))),
+            S(("CAT", ("BIND", "V"), ("SUBX", 1, S(("CAT", ("READ", "V"), ("push", "k")))), ("READ", "V"))),
+            S(("CAT", ("BIND", "V"), ("IFELSE", S(("CAT", ("READ", "V"), ("top?", "p"))), S(("READ", "V")), S(("push", "no"))))),
+            S(("CAT", F, ("BIND", "A"), ("BIND", "A"))), ("READ", "nope"), S(("CAT", ("BIND", "A"), ("ALT", ("BIND", "A"), ("READ", "A")))),
+            S(("CAT", ("push", "0"), ("BIND", "Z"), ("READ", "Z"), ("CLOSE_STAR", S(("CAT", ("inc", 2), ("READ", "Z"), ("drop",)))))),
+            # blocks: lexical closures over the bindings visible where the block is written
+            ("CAT", ("BLOCK", ("push", "in")), ("apply",)), ("BLOCK", ("push", "in")), ("CAT", ("push", "n"), ("apply",)),
+            S(("CAT", ("push", "v"), ("BIND", "A"), ("BLOCK", ("READ", "A")), ("BIND", "F"), ("READ", "F"))),
+            S(("CAT", T, ("BIND", "A"), ("BLOCK", ("CAT", ("READ", "A"), ("twice", "u"))), ("BIND", "F"), ("READ", "F"), ("READ", "F"))),
+            S(("CAT", ("push", "v"), ("BIND", "A"), ("BLOCK", ("BLOCK", ("READ", "A"))), ("apply",), ("apply",))),
+            S(("CAT", ("BIND", "A"), ("BLOCK", ("CAT", ("READ", "A"), ("?", ("CAT", ("READ", "A"), ("top?", "p"))))), ("apply",))),
+            S(("CAT", ("push", "a"), ("BIND", "A"), ("push", "b"), ("BIND", "B"), ("BLOCK", ("CAT", ("READ", "B"), ("READ", "A"), ("READ", "B"))), ("apply",))),
+            S(("CAT", ("push", "1"), ("BIND", "A"), ("push", "2"), ("BIND", "B"), ("BLOCK", ("CAT", ("?", ("CAT", ("READ", "A"), ("top?", "1"))), ("READ", "B"), ("READ", "A"))), ("apply",))),
+            S(("CAT", ("push", "1"), ("BIND", "A"), ("push", "2"), ("BIND", "B"), ("BLOCK", ("CAT", ("!", ("CAT", ("READ", "A"), ("top?", "2"))), ("READ", "B"))), ("apply",))),
+            S(("CAT", ("push", "o"), ("BIND", "A"), ("BLOCK", S(("CAT", ("push", "i"), ("BIND", "A"), ("BLOCK", ("READ", "A")), ("apply",)))), ("apply",))),
+            S(("CAT", ("push", "o"), ("BIND", "A"), ("BLOCK", ("CAT", ("BLOCK", ("READ", "A")), ("apply",), ("READ", "A"))), ("BIND", "F"), S(("CAT", ("push", "z"), ("BIND", "A"), ("READ", "F"))))),
+            S(("CAT", ("BLOCK", ("CAT", ("drop",), ("push", "r"))), ("BIND", "F"), ("push", "k"), ("SUBX", 1, S(("READ", "F"))))),
+            S(("CAT", ("BLOCK", ("twice", "w")), ("BIND", "F"), ("CAPTURE", S(("READ", "F"))), ("OR", ("CAT", ("READ", "F"), ("top?", "w2")), ("push", "none")))),
+            S(("CAT", ("BIND", "X"), ("BLOCK", ("CAT", ("READ", "X"), ("BLOCK", ("CAT", ("READ", "X"), ("READ", "X"))))), ("apply",), ("apply",)))]
+    fmt = [("FORMAT", "abc"), ("FORMAT", "a", P, "b"), ("FORMAT", T, "-", ("twice", "u")), ("FORMAT", "<", N, ">", ("push", "k")), ("FORMAT", "x", F, "y"),
+           ("FORMAT", ("CAT", D, ("push", "k")), "|", N), ("CAT", T, ("FORMAT", N), ("FORMAT", N, "!")), ("CAPTURE", S(("FORMAT", T, "+", ("twice", "u"), "+", ("twice", "w")))),
+           ("FORMAT", ("twice", "u"), " and a long enough suffix that does not fit a small string buffer ", T),
+           ("ALT", ("FORMAT", "l", N), ("FORMAT", N, "r")), ("OR", ("FORMAT", F), ("FORMAT", "second")), ("?", ("FORMAT", "q", F)), ("FORMAT", ("FORMAT", "in", N), "out"),
+           S(("CAT", ("BIND", "V"), ("FORMAT", "[", ("READ", "V"), "|", ("CAT", ("READ", "V"), T), "]"))), ("CAT", ("push", "0"), ("CLOSE_STAR", S(("inc", 2))), ("FORMAT", "n=", N)),
+           ("IFELSE", S(("FORMAT", F)), S(("push", "T")), S(("FORMAT", "else ", T)))]
+    a1s = [x for i, x in enumerate(a1) if i % 3 == 0]
+    a2 = [u(x) for u in unary for x in a1]
+    a2 += [b(x, y) for b in binary for x in a1s for y in a1s]
+    if tier != "thorough":
+        # quick tier: every construct around every pair, every pair around every construct, and a sample of the rest
+        sample = [x for i, x in enumerate(a2) if i % 61 == 0]
+        a2 = [u(b(x, y)) for u in unary for b in binary for x in (P, D, T) for y in (P, D, T)]
+        a2 += [b(u(x), y) for b in binary for u in unary for x in (P, F, T) for y in (P, D, ("top?", "p"))]
+        a2 += [b(y, u(x)) for b in binary for u in unary for x in (P, F, T) for y in (P, T)]
+        a2 += sample
+    return a1 + clos + bind + fmt, a2
+
+
+_E9 = {}
+
+
+def e9(prog, tier="quick"):
+    k_ = (id(prog), tier)
+    if k_ not in _E9:
+        _E9[k_] = _e9(prog, tier)
+    return _E9[k_]
+
+
+def _e9(prog, tier="quick"):
+    """The whole op engine against an independent reference implementation of the documented meaning of the constructs: build_exec /
+    build_pred and every op they construct (op.cc: their constructors, next, state_con/state_des; layout, bindings, up-references; the
+    stack class) are interpreted from source on query trees; only builtin words and values are abstract.  Every tree of a family
+    (all constructs applied to all leaves; all pairs under `,`-juxtaposition, `,` and `||`; assertions, captures, sub-expressions,
+    if-else; closures over converging bodies; lexical names incl. shadowing, rebinding and unbound names; one further level of
+    nesting, sampled in the quick tier) is run on the stack [x] and, as the right side of `(p, q)`, on two inputs; the yielded stacks
+    must be exactly the reference's, in order, the engine must then report exhaustion, and every state slot it constructed must have
+    been destroyed.  The state area is typed: a slot used before construction, after destruction or as another class is a finding."""
+    import zwengine
+    from cxxobj import OutOfBounds
+    inst, findings = [], []
+    E = zwengine.Engine(prog)
+    fam1, fam2 = _e9_terms(tier)
+    wrap = lambda t: ("CAT", ("ALT", ("push", "p"), ("push", "q")), t)
+    n = 0
+    bad = {}
+
+    def check(t, group, both=True):
+        nonlocal n
+        for spec in ((t, wrap(t)) if both else (wrap(t),)):
+            n += 1
+            try:
+                want = list(zwengine.reference(spec, ("x",)))
+            except zwengine.RefError:
+                want = ("error",)
+            try:
+                got = E.run(spec, ["x"])
+            except OutOfBounds as x:
+                got = ("memory", str(x))
+            if isinstance(got, tuple) and got and got[0] == "error":
+                got = ("error",)
+            if got != want and group not in bad:
+                bad[group] = "the query %s on the stack [x] yields %s; the documented meaning gives %s" % (
+                    _e9_show(spec), got if not isinstance(got, list) else [list(g) for g in got], want if not isinstance(want, list) else [list(w) for w in want])
+    for t in fam1:
+        check(t, "E9:" + _e9_group(t))
+    for t in fam2:
+        check(t, "E9:nested", both=False)
+    groups = sorted({"E9:" + _e9_group(t) for t in fam1} | {"E9:nested"})
+    for g in groups:
+        inst.append((g, {"queries_run": n}))
+        if g in bad:
+            findings.append({"key": g, "where": "libzwerg/op.cc / build.cc", "msg": bad[g], "detail": None})
+    return inst, findings
+
+
+def _e9_group(t):
+    def ops(x, acc):
+        if isinstance(x, tuple):
+            if x and isinstance(x[0], str):
+                acc.add(x[0])
+            for y in x[1:]:
+                ops(y, acc)
+        return acc
+    o = ops(t, set())
+    if "FORMAT" in o:
+        return "format"
+    for k in ("BIND", "READ"):
+        if k in o:
+            return "names"
+    for k in ("CLOSE_STAR", "CLOSE_PLUS"):
+        if k in o:
+            return "closure"
+    t0 = t[0]
+    return {"?": "assert", "!": "assert", "SUBX": "subx", "CAPTURE": "capture", "IFELSE": "ifelse", "CAT": "cat", "ALT": "alt", "OR": "or"}.get(t0, "leaf")
+
+
+def _e9_show(t):
+    op = t[0]
+    if op == "push":
+        return str(t[1])
+    if op in ("drop", "fail"):
+        return op
+    if op == "NOP":
+        return "()"
+    if op == "twice":
+        return "(%s1, %s2)" % (t[1], t[1])
+    if op == "inc":
+        return "inc<%d" % t[1]
+    if op == "top?":
+        return "?top=%s" % t[1]
+    if op == "CAT":
+        return " ".join(_e9_show(x) for x in t[1:])
+    if op == "ALT":
+        return "(" + ", ".join(_e9_show(x) for x in t[1:]) + ")"
+    if op == "OR":
+        return "(" + " || ".join(_e9_show(x) for x in t[1:]) + ")"
+    if op == "CAPTURE":
+        return "[" + _e9_show(t[1]) + "]"
+    if op == "SUBX":
+        return "subx<%d>(%s)" % (t[1], _e9_show(t[2]))
+    if op in ("?", "!"):
+        return "%s(%s)" % (op, _e9_show(t[1]))
+    if op == "IFELSE":
+        return "if %s then %s else %s" % tuple(_e9_show(x) for x in t[1:])
+    if op == "SCOPE":
+        return "{" + _e9_show(t[1]) + "}" if t[1][0] in ("CAT",) and any(isinstance(y, tuple) and y[0] == "BIND" for y in t[1][1:]) else _e9_show(t[1])
+    if op == "BIND":
+        return "->" + t[1] + ";"
+    if op == "READ":
+        return t[1]
+    if op == "CLOSE_STAR":
+        return "(" + _e9_show(t[1]) + ")*"
+    if op == "CLOSE_PLUS":
+        return "(" + _e9_show(t[1]) + ")+"
+    if op == "FORMAT":
+        return '"' + "".join(x if isinstance(x, str) else "%( " + _e9_show(x) + " %)" for x in t[1:]) + '"'
+    if op == "BLOCK":
+        return "{" + _e9_show(t[1]) + "}"
+    if op == "apply":
+        return "apply"
+    return str(t)
